@@ -53,7 +53,7 @@ Definition is_str_ty (t : ty) : bool := match t with TStr => true | _ => false e
 Definition is_seq_or_map_ty (t : ty) : bool := match t with TList _ | TDict _ _ => true | _ => false end.
 
 (* canonical form of a set value: the harness sorts observed sets the same way (ints ascending,
-   then strings by code points, anything else after, in first-seen order) *)
+   then strings by code points, then False, True, anything else after) *)
 Fixpoint str_leb (a b : str) : bool :=
   match a, b with
   | [], _ => true
@@ -61,15 +61,13 @@ Fixpoint str_leb (a b : str) : bool :=
   | x :: a', y :: b' => if N.ltb x y then true else if N.ltb y x then false else str_leb a' b'
   end.
 
+Definition set_rank (v : val) : nat := match v with VInt _ => 0 | VStr _ => 1 | VBool _ => 2 | _ => 3 end.
 Definition set_leb (a b : val) : bool :=
   match a, b with
   | VInt x, VInt y => Z.leb x y
-  | VInt _, _ => true
-  | _, VInt _ => false
   | VStr x, VStr y => str_leb x y
-  | VStr _, _ => true
-  | _, VStr _ => false
-  | _, _ => true
+  | VBool x, VBool y => implb x y
+  | _, _ => Nat.leb (set_rank a) (set_rank b)
   end.
 
 Fixpoint set_insert (x : val) (l : list val) : list val :=
